@@ -189,6 +189,35 @@ Definition dec_doc (s : sexp) : option document :=
   | _ => None
   end.
 
+(** the whole request document and Request.OperationName:
+    (request "opname" ((op (some "A")|(none) kind (l c) (sel ...)) ...) (frag ...));
+    the older form (doc kind pos sels frags) is one anonymous operation and no operation name *)
+Definition dec_op (s : sexp) : option operation :=
+  match tagged "op" s with
+  | Some [n; SSym k; p; SL sels] =>
+      match as_option as_bytes n, dec_opkind k, dec_pos p, map_opt dec_sel sels with
+      | Some n', Some k', Some p', Some sels' =>
+          Some {| o_name := n'; o_kind := k'; o_pos := p'; o_sels := sels' |}
+      | _, _, _, _ => None
+      end
+  | _ => None
+  end.
+
+Definition dec_request (s : sexp) : option (request_doc * name) :=
+  match tagged "request" s with
+  | Some [SStr opname; SL ops; SL fs] =>
+      match map_opt dec_op ops, map_opt dec_frag fs with
+      | Some ops', Some fs' => Some ({| r_ops := ops'; r_frags := fs' |}, opname)
+      | _, _ => None
+      end
+  | _ =>
+      match dec_doc s with
+      | Some D => Some ({| r_ops := [{| o_name := None; o_kind := op_kind D; o_pos := op_pos D; o_sels := op_sels D |}];
+                           r_frags := frags D |}, [])
+      | None => None
+      end
+  end.
+
 Definition dec_env (s : sexp) : option env :=
   match s with
   | SL l => map_opt (dec_named (fun x => if is_sym "null" x then Some None else option_map Some (as_bool x))) l
